@@ -202,8 +202,12 @@ def r2(ctx):
     hs = [h for h in rom.handlers() if any(t.split(".")[-1] == "DecodeError" for t in h.meta["types"])]
     ok = False
     for h in hs:
-        rets = [n for n in g.nodes if n.kind == "stmt" and isinstance(n.ast, ast.Return) and g.dominates(h.id, n.id)]
-        if rets and all(n.ast.value is None or (isinstance(n.ast.value, ast.Constant) and n.ast.value.value is None) for n in rets) and g.all_paths_pass(h.id, [g.exit.id], [n.id for n in rets], NONEXC):
+        # every return reachable from the handler yields None (its own `return None`, a shared trailing one, or falling off the end)
+        reach = g.reachable(h.id, labels=NONEXC)
+        rets = [n for n in g.nodes if n.kind == "stmt" and isinstance(n.ast, ast.Return) and n.id in reach]
+        none_only = all(n.ast.value is None or (isinstance(n.ast.value, ast.Constant) and n.ast.value.value is None) for n in rets)
+        reraises = any(g.nodes[i].kind == "stmt" and isinstance(g.nodes[i].ast, ast.Raise) for i in reach)
+        if none_only and not reraises and g.exit.id in reach:
             ok = True
     ctx.check(ok, R, "_read_one_message:DecodeError->None", m, rom.node, "a DecodeError anywhere in header/payload decoding is turned into a None result (reset, not crash)", "no such handler")
     decs = [n for n, c in rom.calls("decode")] + [n for n, c in rom.calls("assert_complete")]
